@@ -33,6 +33,12 @@ BUILT["C06"] = ("Lean 4 layout theorems (little-endian fields, header 64 / entry
 BUILT["C08"] = ("Lean 4 theorems on the access-mode state machine (allow_write/enter/exit/mutators/readers incl. implicit contexts): disk changes only through a mutator with a writable handle, such a handle only comes from enter-after-allow_write, every other mode refuses, readers pure, implicit handles closed; + exhaustive mutator/reader x mode matrix and seeded interleavings on the real object",
             "Proof over the model for every state and trace; the real Tdf object is driven through the full matrix (8 mutators + 20 readers x 7 modes) and seeded interleavings, observing raised?/bytes changed?/handler.closed, judged by the model and by an independent python reference monitor.",
             NOTE + " Which of decorator/PermissionError/closed handle/read-only handle refuses a call is not modelled, only that it raises; nested with-blocks on one object are outside.", "DESIGN.md §6 C08")
+BUILT["C17"] = ("Lean 4 theorems on a finite-map file system model of Tdf.new / copy / open (new image well-formed, existing targets refused and untouched, copy identical and independent, missing / bad-signature open refused) + all target kinds on the real file system",
+            "Proof over the model for every file system and path; the real functions are run on every target kind (absent, TDF, non-TDF, empty, directory), with sources reached by histories and later mutations of copy/original; bytes before/after and exception classes compared, new files judged by Lean's wfB/compactB.",
+            NOTE + " The exists()/open race is OS behaviour and not modelled.", "DESIGN.md §6 C17")
+BUILT["C15"] = ("Lean 4 invariant proof (lists aligned, channels Nodup) preserved by every edit of the three channel-mapped block kinds and every history; survivors keep their channel (removal erases one pair), add appends a pair, taken explicit channel refused, automatic channel fresh; + seeded edit histories on real blocks from empty / constructor-filled / decoded starts",
+            "Proof over the model for every edit sequence; real EMG, platform-calibration and platform-data blocks are driven through seeded histories and compared pairwise with the model after every edit, then encoded and decoded.",
+            NOTE + " Channels (incl. automatic max+1) are kept inside the on-disk range by the generator.", "DESIGN.md §6 C15")
 CONT = "Lean 4 refinement proof: byte-level L0 model of add/remove/replace/setters (seek/write/truncate) simulates the list-of-blocks spec on every well-formed layout (add_sim, remove_sim, run_sim by induction over histories, any table length); "
 BUILT.update({
     "C03": (CONT + "corollary wfB(image)=true; + seeded history correspondence with Lean's wfB judging the real bytes after every call",
